@@ -289,3 +289,25 @@ Example C07_quirks_example :
   (exists o, quirk_model (mkQenv true false false false) true [SRpm 2027 (RpmVal 2)] [] = Some o /\
              o_counts o = [(0, 0); (0, 0); (0, 0); (0, 0)]).
 Proof. repeat split. eexists. split; [vm_compute; reflexivity|reflexivity]. Qed.
+
+(* ---- quirks: the graphics protocol ---- *)
+From Vx Require Import model.QuirksGfx proofs.QuirksGfxProofs.
+
+(* New's steps in source order (reply loop, applyQuirks, the VAXIS_GRAPHICS switch,
+   reportWinsize) settle, for EVERY combination of replies and environment, on: half blocks when
+   no pixel size is known; otherwise the protocol an explicit VAXIS_GRAPHICS word names;
+   otherwise half blocks under ASCIINEMA_REC; otherwise the best protocol the replies
+   established (kitty, sixel), at least half blocks.  Model and specification therefore flag
+   the same cases of any case list. *)
+Theorem C07_quirks_graphics_protocol : forall i : gin,
+  gfx_model i = gfx_spec i /\
+  (forall cases, c07_gfx_mismatches cases = c07_gfx_violations cases).
+Proof. intros i. split; [apply gfx_model_is_spec|apply gfx_agree_implies_ok]. Qed.
+Print Assumptions C07_quirks_graphics_protocol.
+
+(* with the quirks after the VAXIS_GRAPHICS switch an explicit choice is lost under asciinema *)
+Theorem C07_quirks_graphics_order_matters :
+  let i := mkGin false true true 5 true in
+  gfx_run [GLoop; GEnvSwitch; GQuirks; GWinsize] i = 2 /\ gfx_spec i = 4.
+Proof. exact gfx_quirks_last_refuted. Qed.
+Print Assumptions C07_quirks_graphics_order_matters.
